@@ -17,6 +17,10 @@ CTransactionRef parse_tx(const char* p) {
     CDataStream ss(txData, SER_DISK, 0);
     CMutableTransaction mtx;
     UnserializeTransaction(mtx, ss);
+    if (!ss.empty()) {
+        fprintf(stderr, "transaction hex has %zu trailing byte(s) after the encoded transaction\n", ss.size());
+        return nullptr;
+    }
     CTransactionRef tx = MakeTransactionRef(CTransaction(mtx));
     return tx;
 }
